@@ -33,7 +33,11 @@ CHECKS["C08"] = dict(
          "the time component only and every head-pop is preceded by that sort and guarded by a due test; the blocking wait "
          "is dominated (CFG) by the empty branches of all queues and by a failed find_key(); wake-up protocol order "
          "(append before os.write, readers registered, select watches stdin + wake-up fd + readers); paste loop refill "
-         "threshold against the folded MAX_KEYPRESS_SIZE; the wait reports a timeout only when select returned nothing.",
+         "threshold against the folded MAX_KEYPRESS_SIZE; the wait reports a timeout only when select returned nothing. "
+         "Interpreted parts: the key finder on byte buffers derived from the key tables (returns the first keypress of the "
+         "reference segmentation, leaves exactly the rest, `full` means buffer exhausted), unget_bytes (appends in order), "
+         "_nonblocking_read with os.read stubbed (every byte buffered once, in order; nothing on EOF / would-block), the "
+         "descriptor set handed to select (stdin + wake-up fd + readers).",
     note="trusted: list.sort stability, select/os.read/os.write; not decided: real interleavings, thread races, float "
          "remaining-time arithmetic",
     design="DESIGN.md section 3 C08")
@@ -82,12 +86,14 @@ CHECKS["C14"] = dict(
          "fmtfuncs helper gives the attribute its name says; all spellings of every colour/style value agree; applying any "
          "attribute (set) to 1-2 run values over a small attribute domain overrides exactly the named attributes and keeps "
          "text and runs; removal over all 1-3 element name sets deletes exactly those; copy_with_new_str keeps a uniformly "
-         "formatted string's formatting (empty unformatted runs around included); a 24-entry catalogue of unknown, "
-         "contradictory and mis-typed specifications raises ValueError (mixed case: ValueError or acceptance); guard key == "
+         "formatted string's formatting (empty unformatted runs around included); a catalogue of unknown, contradictory and "
+         "mis-typed specifications raises ValueError (24 fmtstr entries; every colour helper given its attribute again "
+         "positionally, by keyword name, by number or through style=; a style switched on by name and off by keyword; a "
+         "non-boolean style value; mixed case: ValueError or acceptance); guard key == "
          "lookup key for every guarded table lookup of the package; shared_atts over 1-3 run layouts only reports values every "
          "non-empty run has. Layout size is bounded (<= 3 runs); the per-run maps are checked to have no filter.",
-    note="trusted: the folder/evaluator of sa/ (fail-closed outside its pure subset), dict/str primitives; not decided: "
-         "value validation the code does not attempt (bold='x')",
+    note="trusted: the folder/evaluator of sa/ (fail-closed outside its pure subset), dict/str primitives. Two genuine "
+         "deviations are recorded as known findings (helper + style=, non-boolean style value).",
     design="DESIGN.md section 3 C14")
 CHECKS["C19"] = dict(
     technique="object-aware abstract interpretation of __eq__/__hash__/__repr__ and the code they reach on a pool of model values; repr strings re-evaluated through the interpreted fmtfuncs helpers",
